@@ -495,6 +495,21 @@ func (r *Ref) field(obj *ast.Definition, objPath, path string, fd *ast.FieldDefi
 			return r.nonNullCheck(fd.Type, path, Null)
 		}
 	}
+	// a directive the OPERATION puts on the field (@fq, location FIELD) wraps everything below
+	if fields[0].Directives.ForName("fq") != nil {
+		r.Calls = append(r.Calls, "%"+path)
+		r.Positions = append(r.Positions, Position{Path: "%" + path, Kind: "directive", GQLType: fd.Type.String(), Nilable: true, Object: obj.Name + "." + fd.Name})
+		switch r.Plan.Get("%" + path) {
+		case "error":
+			r.addErr(path, "resolver")
+			return r.nonNullCheck(fd.Type, path, Null)
+		case "panic":
+			r.addErr(path, "panic")
+			return r.nonNullCheck(fd.Type, path, Null)
+		case "null":
+			return r.nonNullCheck(fd.Type, path, Null)
+		}
+	}
 	// schema directive @fd wraps the resolver
 	if fd.Directives.ForName("fd") != nil {
 		r.Calls = append(r.Calls, "@"+path)
@@ -518,7 +533,7 @@ func (r *Ref) field(obj *ast.Definition, objPath, path string, fd *ast.FieldDefi
 		r.Positions = append(r.Positions, Position{Path: path, Kind: "resolver", GQLType: fd.Type.String(), Nilable: r.Nilable(fd.Type), List: fd.Type.Elem != nil, Abstract: fd.Type.Elem == nil && r.isAbstract(fd.Type.NamedType), Object: obj.Name + "." + fd.Name})
 		outcome = r.Plan.Get(path)
 		switch outcome {
-		case "error", "errval":
+		case "error", "errval", "adderr":
 			r.addErr(path, "resolver")
 			return r.nonNullCheck(fd.Type, path, Null)
 		case "panic":
